@@ -301,12 +301,16 @@ Delete == /\ pc = Idle /\ "delete" \in Ops /\ ~gone /\ ~cx.on
 (***************************************************************************)
 (* metadata                                                                *)
 (***************************************************************************)
-MKinds == {"update", "setitem", "update0", "updatebad", "pop", "popd", "popitem", "del"}
+MKinds == {"update", "setitem", "update0", "updatebad", "pop", "popd", "popitem", "del", "updateall"}
+(* "updateall": one update() call that sets EVERY key (to v): the file goes from the old to the new  *)
+(* dictionary in one rewrite - a state with only some of the keys changed is never on disk           *)
+AllTo(v) == [q \in Keys |-> v]
 M_Call(kd, k, v) ==
   /\ pc = Idle /\ ~gone /\ "meta" \in Ops /\ kd \in MKinds /\ k \in Keys /\ v \in Vals
   /\ (kd \in {"update0", "pop", "popd", "popitem", "del"} => v = CHOOSE x \in Vals : TRUE)
-  /\ (kd \in {"update0", "popitem"} => k = CHOOSE x \in Keys : TRUE)
+  /\ (kd \in {"update0", "popitem", "updateall"} => k = CHOOSE x \in Keys : TRUE)
   /\ LET posts == IF kd \in {"update", "setitem"} THEN {[refmeta EXCEPT ![k] = v]}
+                  ELSE IF kd = "updateall" THEN {AllTo(v)}
                   ELSE IF kd \in {"pop", "popd", "del"} THEN {[refmeta EXCEPT ![k] = 0]}
                   ELSE IF kd = "popitem" THEN {[refmeta EXCEPT ![q] = 0] : q \in Keys}
                   ELSE {} IN
@@ -323,6 +327,9 @@ M_Checks ==
      ELSE CASE pc.kd \in {"update", "setitem"} ->
                  /\ pc' = [pc EXCEPT !.at = "trunc", !.new = [cur EXCEPT ![pc.key] = pc.v], !.ret = "cb"]
                  /\ refmeta' = [cur EXCEPT ![pc.key] = pc.v] /\ UNCHANGED <<out, ret, gone>>
+            [] pc.kd = "updateall" ->
+                 /\ pc' = [pc EXCEPT !.at = "trunc", !.new = AllTo(pc.v), !.ret = "cb"]
+                 /\ refmeta' = AllTo(pc.v) /\ UNCHANGED <<out, ret, gone>>
             [] pc.kd = "update0" ->
                  IF MetaLen(cur) = 0 THEN Return("ok") /\ UNCHANGED <<refmeta, ret, gone>>
                  ELSE /\ pc' = [pc EXCEPT !.at = "trunc", !.new = cur, !.ret = "cb"]
